@@ -489,7 +489,7 @@ func caseShardRoots(t *testing.T, m *multi, answers []shardAnswer, delays []time
 // and every element is base64 (an absent / null / empty list is a good, empty answer)
 func decodeRoots(body []byte) ([][]byte, bool) {
 	var m mRoots
-	if json.NewDecoder(bytes.NewReader(body)).Decode(&m) != nil {
+	if json.Unmarshal(body, &m) != nil {
 		return nil, false
 	}
 	certs := [][]byte{}
